@@ -117,9 +117,9 @@ theorem forgedSize_allocates (cfg : Cfg) (hb : cfg.boundsCompressedSize = false)
     loadAlloc cfg d crc forgedSizeFile = 64 + 0 + (16 + 4294967295) ∧
     loadIndex cfg d crc forgedSizeFile = .ok ([], []) := by
   have hopen : openReader forgedSizeFile = .ok ⟨hdr0, []⟩ :=
-    openReader_prefix hdr0 [] _ hdr0_valid rfl rfl
+    openReader_prefix hdr0 [] _ hdr0_valid (Or.inl ⟨rfl, rfl⟩)
   have hdrop : forgedSizeFile.drop hdr0.dataStart = encodeBlockHeader ⟨4294967295, 0, 0, 0, 0⟩ :=
-    drop_dataStart hdr0 [] _ rfl rfl
+    drop_dataStart hdr0 [] _ (Or.inl ⟨rfl, rfl⟩)
   have hdec : decodeBlockHeader (encodeBlockHeader ⟨4294967295, 0, 0, 0, 0⟩) = ⟨4294967295, 0, 0, 0, 0⟩ := by
     have := decodeBlockHeader_encode ⟨4294967295, 0, 0, 0, 0⟩ [] (by decide) (by decide) (by decide) (by decide) (by decide)
     simpa using this
@@ -167,9 +167,9 @@ theorem not_holds_of_unboundedDecodedLen (cfg : Cfg) (hb : cfg.boundsDecodedLen 
   have h1 := hh.alloc greedyDecoder crc0 forgedLenFile (by intro c u h; simp [greedyDecoder] at h)
   rw [forgedLenFile_length] at h1
   have hopen : openReader forgedLenFile = .ok ⟨hdr0, []⟩ :=
-    openReader_prefix hdr0 [] _ hdr0_valid rfl rfl
+    openReader_prefix hdr0 [] _ hdr0_valid (Or.inl ⟨rfl, rfl⟩)
   have hdrop : forgedLenFile.drop hdr0.dataStart = encodeBlockHeader ⟨1, 0, 0, 0, 0⟩ ++ [0xff] :=
-    drop_dataStart hdr0 [] _ rfl rfl
+    drop_dataStart hdr0 [] _ (Or.inl ⟨rfl, rfl⟩)
   have hdec : decodeBlockHeader (encodeBlockHeader ⟨1, 0, 0, 0, 0⟩ ++ [0xff]) = ⟨1, 0, 0, 0, 0⟩ :=
     decodeBlockHeader_encode ⟨1, 0, 0, 0, 0⟩ [0xff] (by decide) (by decide) (by decide) (by decide) (by decide)
   have hlen : (encodeBlockHeader ⟨1, 0, 0, 0, 0⟩ ++ [0xff]).length = 17 := by simp [encodeBlockHeader_length]
